@@ -585,6 +585,52 @@ def sample_case(ctx, rng, idx):
                            'case': feats}, feats)
 
 
+def sample_rows_case(ctx, rng, idx):
+    """few samples with one covariate row each (also as many samples as
+    covariates: a square matrix): sample i is drawn for covariate row i.
+    Underlying model pooled or centred with a tiny scale, so every sample
+    is determined by its own row"""
+    kind = 'PGLT'[idx % 4]
+    n_cov = int(rng.integers(1, 5))
+    n = n_cov if rng.random() < 0.5 else int(rng.integers(1, 6))
+    under = {'P': chi.PooledModel, 'G': chi.GaussianModel,
+             'L': chi.LogNormalModel, 'T': chi.TruncatedGaussianModel}[kind]()
+    model = chi.CovariatePopulationModel(
+        under, chi.LinearCovariateModel(n_cov=n_cov))
+    if kind != 'P':
+        model.set_population_parameters([[0, 0]])
+    if rng.random() < 0.3:
+        model = chi.ReducedPopulationModel(model)
+    a0 = float(rng.uniform(1, 2))
+    beta = rng.uniform(0.3, 1.0, size=n_cov)
+    top = {'P': [a0], 'G': [a0, 1e-6], 'T': [a0, 1e-6],
+           'L': [float(np.log(a0)), 1e-7]}[kind] + list(beta)
+    cov = rng.uniform(0, 3, size=(n, n_cov))
+    feats = {'family': 'sample_rows', 'kind': kind, 'n_cov': n_cov,
+             'n_samples': n, 'square': n == n_cov}
+    ctx.case(('sample_rows', kind, n_cov, n), True,
+             sample=dict(feats, covariates=cov))
+    try:
+        smp = np.asarray(model.sample(
+            top, n_samples=n, seed=int(rng.integers(1000)),
+            covariates=cov if rng.random() < 0.5 else cov.tolist()),
+            dtype=float)
+    except Exception as e:      # noqa
+        ctx.violation_exc('sample_raises', e, {'case': feats}, feats)
+        return
+    ctx.count('sample_rows_checked', n)
+    lin = cov @ beta
+    want = np.exp(np.log(a0) + lin) if kind == 'L' else a0 + lin
+    if smp.shape != (n, 1) or np.max(np.abs(smp[:, 0] - want) / (
+            1 + np.abs(want))) > 1e-4:
+        ctx.violation('sample_follows_underlying_at_vartheta_i',
+                      'sample_row_mismatch:' + kind,
+                      {'samples': smp, 'expected': want,
+                       'with_the_transposed_matrix': (
+                           a0 + cov.T @ beta).tolist()
+                       if n == n_cov else None, 'case': feats}, feats)
+
+
 def composite_names_case(ctx, rng, idx):
     """covariate columns of a composite (optionally behind a reduced
     wrapper) are named through the composite: the names read back, and a
@@ -787,6 +833,7 @@ def kept_dim_names_case(ctx, rng, idx):
 
 
 FAMILIES = [
+    Family('sample_rows', sample_rows_case, quick=160, thorough=1600),
     Family('random', random_case, quick=2100, thorough=42000),
     Family('exhaustive', exhaustive_case, quick=len(_SELS),
            thorough=len(_SELS) * 4),
